@@ -61,7 +61,10 @@ def graphs(n, cyclic=False):
 
 
 def cfg_name(cfg):
-    return f"n{cfg.n}w{cfg.w}-h{''.join(f'{i}{j}' for i, j in cfg.hard) or '_'}-s{''.join(f'{i}{j}' for i, j in cfg.soft) or '_'}"
+    base = f"n{cfg.n}w{cfg.w}-h{''.join(f'{i}{j}' for i, j in cfg.hard) or '_'}-s{''.join(f'{i}{j}' for i, j in cfg.soft) or '_'}"
+    if cfg.prior is not None:
+        base += f"-after-h{''.join(f'{i}{j}' for i, j in cfg.prior[0]) or '_'}-s{''.join(f'{i}{j}' for i, j in cfg.prior[1]) or '_'}"
+    return base
 
 
 def default_depth(cfg):
@@ -238,7 +241,7 @@ def generic_replay(module, rp):
     for j in module.jobs('thorough') + module.jobs('quick'):
         if j[0] == rp['job']:
             p = j[2]
-            cfg = Config(p['n'], p['hard'], p['soft'], p['w'])
+            cfg = Config(p['n'], p['hard'], p['soft'], p['w'], prior=p.get('prior'))
             spec_confirm = module.CONFIRM[rp['label']]
             kw = module.replay_kwargs(inp.get('extra') or {}) if hasattr(module, 'replay_kwargs') else {}
             r = run_trace(cfg, inp['trace'], inp['kind_codes'], **kw)
